@@ -251,6 +251,24 @@ def check_car(rec, rng, quick):
                         if ok:
                             exp = [mpsgen.expect_dense(v, sites, [(x, i), (y, L - 1)]) for i in sorted(il, reverse=True)]
                             rec.check(np.allclose(r, exp, atol=1e-9), 'CAR:term_correlation_function_left', f'<{x}_i {y}_(L-1)>', {'L': L, 'ops': (x, y), 'site': fam_name})
+            # ... and between *sums* of odd-parity terms that start on different sites (term_list_correlation_function_right pads the
+            # shorter ones on the left - with a Jordan-Wigner string):  <x_0 (y_j + alpha y_{j+1})>,  <(x_0 + beta x_1) (y_j + alpha y_{j+1})>
+            if L >= 4:
+                for a, c in list(zip(ann, cre))[:2]:
+                    for x, y in ((a, c), (c, a)):
+                        al, be = 0.7 - 0.2j, -0.4 + 0.5j
+                        for tagL, tlL, left in (('single', TermList([[(x, 0)]], [1.0]), [(1.0, 0)]),
+                                                ('sum', TermList([[(x, 0)], [(x, 1)]], [1.0, be]), [(1.0, 0), (be, 1)])):
+                            tlR = TermList([[(y, 0)], [(y, 1)]], [1.0, al])
+                            js = list(range(2, L - 1))
+                            inp = {'L': L, 'ops': (x, y), 'site': fam_name, 'left': tagL}
+                            ok, r = rec.guarded('CAR:term_list_correlation_function_right:exception',
+                                                lambda: psi.term_list_correlation_function_right(tlL, tlR, i_L=0, j_R=js), inp)
+                            if ok:
+                                exp = [sum(cl * cr * mpsgen.expect_dense(v, sites, [(x, kl), (y, j + kr)]) for cl, kl in left for cr, kr in ((1.0, 0), (al, 1)))
+                                       for j in js]
+                                rec.check(np.allclose(r, exp, atol=1e-9), 'CAR:term_list_correlation_function_right',
+                                          f'{np.asarray(r)} vs dense {np.asarray(exp)}', inp)
             # quadruples through expectation_value_term
             for _ in range(10 if quick else 100):
                 idx = rng.integers(0, L, size=4)
